@@ -199,6 +199,11 @@ def stepDecBuf (g : Grow) (b : DecBuf) (ws : List String) : Machine × String :=
   | ["rd", n] =>
     let (b', q) := b.read (nat! n); (.decbuf b', s!"{hexl q} {showDec b'}")
   | ["reset"] => let b' := b.reset; (.decbuf b', s!"ok {showDec b'}")
+  | ["init", w, bs] =>
+    -- Init on a used value: the capacity of Data is kept, a rejected configuration leaves it untouched
+    match DecBuf.init (int! w) (int! bs) b.cap with
+    | some b' => (.decbuf b', s!"ok {showDec b'}")
+    | none => (.decbuf b, s!"cfg {showDec b}")
   | ["bae", off] => (.decbuf b, s!"{(b.byteAtEnd (int! off)).toNat}")
   | ["wt", rs] =>
     let (d, k, e) := Decoder.writeTo { buf := b, w := { resps := parseResps rs, got := [] } }
@@ -224,6 +229,10 @@ def stepDecoder (g : Grow) (d : Decoder) (ws : List String) : Machine × String 
   | ["reset", rs] =>
     let d' := d.reset { resps := parseResps rs, got := [] }
     (.decoder d', s!"ok - {showDec d'.buf}")
+  | ["init", w, bs, rs] =>
+    match DecBuf.init (int! w) (int! bs) d.buf.cap with
+    | some b' => (.decoder { buf := b', w := { resps := parseResps rs, got := [] } }, s!"ok - {showDec b'}")
+    | none => (.decoder d, s!"cfg - {showDec d.buf}")
   | _ => (.decoder d, "bad-op")
 
 def stepBitset (b : BitsetM) (ws : List String) : Machine × String :=
